@@ -41,11 +41,18 @@ if claim:
     json.dump(claim, open(os.path.join(V, "harness", "claims", ID + ".json"), "w"), indent=1); print("claim written")
 else:
     print("NO CLAIM FOUND")
-# driver registration
+# driver registration: every Driver/Cxx.lean gets its own namespace Qv.Drv.Cxx (name clashes between builders)
+dfile = os.path.join(V, "lean", "Qv", "Driver", ID + ".lean")
+if os.path.exists(dfile) and ID not in ("C02", "C05"):
+    ds = open(dfile).read()
+    ds = re.sub(r"^namespace Qv\.Drv$", "namespace Qv.Drv." + ID, ds, flags=re.M)
+    ds = re.sub(r"^end Qv\.Drv$", "end Qv.Drv." + ID, ds, flags=re.M)
+    open(dfile, "w").write(ds)
 drv = open(os.path.join(V, "lean", "Driver.lean")).read()
 if os.path.exists(os.path.join(V, "lean", "Qv", "Driver", ID + ".lean")) and ("Qv.Driver." + ID) not in drv:
     drv = drv.replace("/-! Line-protocol", "import Qv.Driver.%s\n/-! Line-protocol" % ID, 1)
     drv = re.sub(r"(def allHandlers[^\n]*\n\s+[^\n]*)", lambda mm: mm.group(1) + " ++ handlers" + ID, drv, 1)
+    drv = re.sub(r"(open Lean Qv Qv\.Drv[^\n]*)", lambda mm: mm.group(1) + " Qv.Drv." + ID, drv, 1)
     open(os.path.join(V, "lean", "Driver.lean"), "w").write(drv); print("driver registered")
 # Qv.lean imports for new model files
 q = open(os.path.join(V, "lean", "Qv.lean")).read()
